@@ -1067,8 +1067,8 @@ func (e *Engine) applyContract(st *State, fr *Frame, res ssa.Value, callee *ssa.
 		if c.Tmpl && c.Optional && len(c.Props) > 0 && !e.sharesProp(c.Props) {
 			// the optional precondition of a sweep template belongs to another property's sweep (it says
 			// what that sweep assumes about receivers); the function verified here relies on none of its
-			// postconditions for this clause, so it is not its obligation
-			st.assume(g)
+			// postconditions for this clause, so it is not its obligation. It is not assumed either: an
+			// assumption that is false here would make everything after the call vacuous.
 			continue
 		}
 		if fr != nil && (fr.fn == e.fn || e.wantSafe) {
@@ -1155,6 +1155,7 @@ func (e *Engine) applyContract(st *State, fr *Frame, res ssa.Value, callee *ssa.
 	}
 	for _, c := range con.get("assume-ensures") {
 		st.assume(e.evalSpecBool(st, pre, c.Expr, env))
+		e.uncheckedAssumes[shortFn(callee)+" (assumed at its call sites, never checked): "+c.Text] = true
 	}
 	if con.Extern {
 		// an external function has no body to carry its ghost effect: it is applied here
